@@ -336,6 +336,8 @@ func verifSpec_connectorCreator(ctx context.Context, cfg *v1.ClientCommonConfig)
 //
 //verif:contract (*~/client.Service).login
 //verif:props C14 C05 C12
+//verif:modifies *
+//verif:preserves H.client.Service.ctl H.client.Service.proxyCfgs H.client.Service.visitorCfgs H.client.Service.clientSpec H.client.Service.authSetter H.client.Service.common
 func verif_client_login(svr *Service) {
 	verif.Requires(svr.common != nil && svr.authSetter != nil, "constructed_by_NewService")
 	runID0 := svr.runID
@@ -371,6 +373,8 @@ func verif_client_login(svr *Service) {
 //
 //verif:contract ~/client.NewControl
 //verif:props C05
+//verif:modifies *
+//verif:preserves H.client.SessionContext. H.client.Service.
 func verif_client_NewControl(ctx context.Context, sessionCtx *SessionContext) {
 	verif.Requires(sessionCtx != nil && sessionCtx.Common != nil, "session_context_present")
 	enc, conn, token := sessionCtx.ConnEncrypted, sessionCtx.Conn, sessionCtx.Common.Auth.Token
@@ -434,6 +438,74 @@ func verif_client_loopLoginUntilSuccess(svr *Service, maxInterval time.Duration,
 	verif.Ensures(verif.CallCount(evNewMgr) == 1 && wait.VerifSaneOptions(o) && o.MaxDuration == maxInterval && o.Duration > 0, "paced_by_a_sane_capped_backoff")
 }
 
+// One login attempt (the closure loopLoginUntilSuccess retries). After a
+// successful login the session is built on exactly the connection and
+// connector the login returned, under the run id the server just handed out,
+// signed by the service's setter, and with the control cipher stream switched
+// on for every client except the ssh gateway's virtual one (C05: that one runs
+// inside the server process); a session that cannot be built closes the
+// connection (C10); the session is started with the proxies and visitors
+// configured at that moment (C19: a reload that arrived before the login is
+// what gets registered), and only then replaces - and closes - the previous
+// one (C12 / C14).
+//
+//verif:contract (*~/client.Service).loopLoginUntilSuccess$1
+//verif:props C05 C10 C12 C14 C19
+//verif:kinds post,pre,lock
+func verif_client_login_attempt() {
+	svr := verif.FreeVar[*Service]("svr")
+	verif.Requires(svr.common != nil && svr.authSetter != nil && svr.ctx != nil, "constructed_by_NewService")
+	virtual := svr.clientSpec != nil && svr.clientSpec.Type == "ssh-tunnel"
+	old, pc0, vc0 := svr.ctl, svr.proxyCfgs, svr.visitorCfgs
+	verif.ResetEvents()
+	done, err := verif.CallTargetR2[bool, error]()
+	const evLogin, evNew, evRun = "Service).login", "client.NewControl", "Control).Run"
+	if verif.RetErr(evLogin, 2) != nil {
+		verif.Ensures(!done && err != nil && !verif.Called(evNew) && !verif.Called(evRun), "failed_login_builds_no_session")
+		return
+	}
+	conn := verif.Ret[net.Conn](evLogin, 0)
+	sc := verif.NthArg[*SessionContext](evNew, 0, 1)
+	verif.Ensures(verif.CallCount(evNew) == 1 && sc != nil, "one_session_per_successful_login")
+	if verif.RetErr(evNew, 1) != nil {
+		// (the session context is compared on this path, where nothing has run
+		// since it was handed over; it is built by the same statements on both)
+		verif.Ensures(verif.Same(sc.Conn, conn) && verif.Same(sc.Connector, verif.Ret[Connector](evLogin, 1)), "session_on_the_connection_and_connector_of_the_login")
+		verif.Ensures(sc.ConnEncrypted == !virtual, "control_stream_encrypted_except_for_the_virtual_ssh_client")
+		verif.Ensures(sc.RunID == svr.runID && sc.AuthSetter == svr.authSetter && sc.Common == svr.common, "run_id_setter_and_configuration_of_the_service")
+		verif.Ensures(!done && err != nil && verif.CalledWith("Conn).Close", 0, conn) && svr.ctl == old && !verif.Called(evRun), "unbuilt_session_closes_the_connection")
+		return
+	}
+	ctl := verif.Ret[*Control](evNew, 0)
+	verif.Ensures(done && err == nil && svr.ctl == ctl, "new_session_installed")
+	verif.Ensures(verif.CalledWith(evRun, 0, ctl) && verif.Same(verif.NthArg[[]v1.ProxyConfigurer](evRun, 0, 1), pc0) && verif.Same(verif.NthArg[[]v1.VisitorConfigurer](evRun, 0, 2), vc0), "started_with_the_current_configuration")
+	if verif.Called("Control).Close") {
+		verif.Ensures(verif.CalledBefore(evRun, "Control).Close") && verif.CallCount("Control).Close") == 1, "previous_session_closed_after_the_new_one_started")
+	}
+}
+
+// UpdateAllConfigurer (reload): the new set is remembered by the service
+// whether or not a session exists at that moment - the next login registers
+// what was configured last (C19 "after any sequence of reloads ... exactly the
+// configured proxies") - and is handed to the running session if there is one.
+//
+//verif:contract (*~/client.Service).UpdateAllConfigurer
+//verif:props C19
+//verif:kinds post,lock
+func verif_client_Service_UpdateAllConfigurer(svr *Service, proxyCfgs []v1.ProxyConfigurer, visitorCfgs []v1.VisitorConfigurer) {
+	verif.Requires(svr.ctl == nil || VerifControlBuilt(svr.ctl), "session_built_by_NewControl")
+	verif.ResetEvents()
+	_ = svr.UpdateAllConfigurer(proxyCfgs, visitorCfgs)
+	const evCtl = "Control).UpdateAllConfigurer"
+	if !verif.Called(evCtl) {
+		// (compared on the path without a session: the managers of a running
+		// session are unknown code as far as the service's fields go)
+		verif.Ensures(verif.Same(svr.proxyCfgs, proxyCfgs) && verif.Same(svr.visitorCfgs, visitorCfgs), "new_configuration_remembered_without_a_session")
+	} else {
+		verif.Ensures(verif.Same(verif.NthArg[[]v1.ProxyConfigurer](evCtl, 0, 1), proxyCfgs) && verif.Same(verif.NthArg[[]v1.VisitorConfigurer](evCtl, 0, 2), visitorCfgs), "running_session_gets_the_new_configuration")
+	}
+}
+
 // The step keepControllerWorking repeats after a session ended: log in again,
 // retrying for as long as it takes (never "exit on first failure", whatever the
 // configuration says about the first login), capped at 20 s between attempts,
@@ -447,6 +519,12 @@ func verif_client_relogin_step() {
 	verif.ResetEvents()
 	done, _ := verif.CallTargetR2[bool, error]()
 	verif.Ensures(!done, "the_relogin_loop_never_gives_up_by_itself")
+	// the session whose end is awaited is the one the service holds after this
+	// login - looked up afresh, not the (already ended) one from before
+	verif.Ensures(verif.CalledBefore("Service).loopLoginUntilSuccess", "Service).getControl"), "session_looked_up_after_the_login")
+	if verif.Called("Control).Done") {
+		verif.Ensures(verif.CalledWith("Control).Done", 0, verif.Ret[*Control]("Service).getControl", 0)), "waits_for_the_end_of_the_new_session")
+	}
 	verif.Ensures(verif.CallCount("Service).loopLoginUntilSuccess") == 1 && verif.CalledWith("Service).loopLoginUntilSuccess", 1, 20*time.Second) && verif.CalledWith("Service).loopLoginUntilSuccess", 2, false), "relogin_retries_until_success_capped_at_20s")
 }
 
